@@ -28,6 +28,11 @@ func (c *zzPerKeyExpiry) ExpireAfterRead(e Entry[int, int]) time.Duration {
 func ZZ_C13_Cache() {
 	ttls := []time.Duration{1, time.Second, 2 * time.Minute, 3 * time.Hour, 48 * time.Hour, 240 * time.Hour, 20000 * time.Hour}
 	jumps := []int64{1 << 29, 3 << 30, int64(2 * time.Minute), int64(26 * time.Hour), int64(30 * 24 * time.Hour), int64(3 * 365 * 24 * time.Hour)}
+	if vParam("jumpset") == 1 {
+		// clock jumps of exactly one full turn of a wheel level (64, 64, 32, 4 ticks of 2^30, 2^36, 2^42, 2^47 ns), one
+		// tick more and one tick less
+		jumps = []int64{1 << 36, 1 << 42, 1 << 47, 1 << 49, 1<<36 + 1<<30, 1<<36 - 1<<30, 1<<42 + 1<<36}
+	}
 	calc := &zzPerKeyExpiry{}
 	if vParam("readsextend") == 1 {
 		calc.d[0] = 1
